@@ -15,15 +15,16 @@ LIFE_UNW = [("snprintf", r"for \(int i = 0; i < VK_SNPRINTF_MAX", 26), ("snprint
 
 def instances(tier):
     out = []
-    common = dict(models=["models/vin.c", "models/msg.c", "models/ctype.c", "models/log_stub.c", "models/snprintf_model.c"], native_srcs=["lib/src/tldevel.c"], timeout=240, mem_gb=8)
-    srcs = ["lib/src/msa_alloc.c", "lib/src/msa_op.c", "lib/src/alphabet.c", "lib/src/task.c", "lib/src/aln_mem.c", "lib/src/aln_param.c"]
-    for mode, n, l in ([(1, 2, 0), (2, 3, 0), (3, 0, 0), (4, 2, 2)] if tier == "quick" else [(1, 1, 0), (1, 2, 0), (1, 3, 0), (2, 2, 0), (2, 3, 0), (2, 5, 0), (3, 0, 0), (4, 2, 2), (4, 3, 2), (4, 2, 3)]):
+    common = dict(models=["models/vin.c", "models/msg.c", "models/ctype.c", "models/log_stub.c", "models/snprintf_model.c", "models/qsort.c", "models/str.c"], native_srcs=["lib/src/tldevel.c"], timeout=240, mem_gb=8)
+    srcs = ["lib/src/msa_alloc.c", "lib/src/msa_op.c", "lib/src/alphabet.c", "lib/src/task.c", "lib/src/aln_mem.c", "lib/src/aln_param.c", "lib/src/msa_check.c"]
+    for mode, n, l in ([(1, 2, 0), (2, 3, 0), (3, 0, 0), (4, 2, 2), (5, 3, 0)] if tier == "quick" else [(1, 1, 0), (1, 2, 0), (1, 3, 0), (2, 2, 0), (2, 3, 0), (2, 5, 0), (3, 0, 0), (4, 2, 2), (4, 3, 2), (4, 2, 3), (5, 3, 0), (5, 4, 0)]):
         out.append(Inst(ob="O3", name="life_m%d_n%d_l%d" % (mode, n, l), harness="c16_life.c", defs={"VK_MODE": mode, "VK_N": n, "VK_L": l, "VK_QSORT_MAX": 4},
                         srcs=srcs + ["lib/src/msa_sort.c" if False else "lib/src/tlrng.c"][:0], unwind=max(2 * n + 4, 18), unwind_pat=LIFE_UNW, flags=["--memory-leak-check"],
                         nb=max(4, n * max(l, 1)), nf=1, funcs={1: ["alloc_msa", "alloc_msa_seq", "resize_msa_seq", "set_sip_nsip", "kalign_free_msa", "free_msa_seq"],
                                                        2: ["alloc_tasks", "free_tasks", "alloc_aln_mem", "resize_aln_mem", "free_aln_mem"], 3: ["aln_param_init", "aln_param_free"],
-                                                       4: ["kalign_arr_to_msa", "detect_alphabet", "detect_aligned", "set_sip_nsip", "kalign_free_msa"]}[mode],
-                        bound="life cycle %d with %d objects" % (mode, n), desc="paired allocation: no leak, no double free, no use after free", cost=10 * n, **common))
+                                                       4: ["kalign_arr_to_msa", "detect_alphabet", "detect_aligned", "set_sip_nsip", "kalign_free_msa"],
+                                                       5: ["alloc_msa", "kalign_essential_input_check", "kalign_free_msa"]}[mode],
+                        bound="life cycle %d with %d objects" % (mode, n), desc="paired allocation: no leak, no double free, no use after free", cost=10 * n, leak_check=True, **common))
     for n, l in ([(2, 2)] if tier == "quick" else [(2, 1), (2, 2), (3, 2), (2, 3)]):
         out.append(Inst(ob="O2", name="arr_twice_n%d_l%d" % (n, l), harness="c16_arr.c", defs={"VK_N": n, "VK_L": l}, srcs=srcs, unwind=max(2 * n + 4, 12), unwind_pat=LIFE_UNW,
                         nb=n * l, ni=1, gi_args=["--replace-calls", "detect_alphabet:vk_detect_alphabet"], funcs=["kalign_arr_to_msa", "detect_aligned", "set_sip_nsip"],
